@@ -402,7 +402,7 @@ LKEYS = list("abcdef")
 
 def gen_layered(rng: random.Random, tier: str) -> dict:
     nl = rng.randint(0, 4)
-    layers = [{k: [i, k] for k in rng.sample(LKEYS, rng.randint(0, 4))} for i in range(nl)]
+    layers = [{k: (None if rng.random() < 0.25 else [i, k]) for k in rng.sample(LKEYS, rng.randint(0, 4))} for i in range(nl)]  # None is a value like any other
     names = [rng.choice([None, f"n{i}"]) for i in range(nl)]
     ops = []
     for step in range(rng.randint(1, 20)):
@@ -542,6 +542,13 @@ def judge_layered(case) -> Outcome:
             out.fail("c19.layered_layer_name", f"key {k!r}: got {(val, lname)}, expected value from layer {top} named {case['names'][top]!r}")
         if lmn.get_layer_name_for_key(k) != case["names"][top]:
             out.fail("c19.layered_layer_name", f"get_layer_name_for_key({k!r})")
+        # the same lookup with the default default (None), which is also a legitimate stored value
+        val0, lname0 = lmn.get_with_layer_name(k)
+        if val0 != layers[top][k] or lname0 != case["names"][top]:
+            out.fail("c19.layered_layer_name", f"key {k!r} (stored value {layers[top][k]!r}): get_with_layer_name without default gives {(val0, lname0)}, expected layer {top} named {case['names'][top]!r}")
+        sentinel = layers[top][k]
+        if sentinel is not None and lmn.get_with_layer_name(k, default=sentinel)[1] != case["names"][top]:
+            out.fail("c19.layered_layer_name", f"key {k!r}: passing the stored value itself as default changes the reported layer")
         out.see("named_layer_checks")
     if set(lmn.named_layers) != {n for n in case["names"] if n is not None}:
         out.fail("c19.layered_named_layers", f"named_layers {set(lmn.named_layers)} vs {case['names']}")
